@@ -366,8 +366,16 @@ def r2_obligations(facts, mut):
             gf = guard_facts(fn, b, st)
             guard = ' && '.join(sorted(fact_str(x) for x in gf))
             construct = 'store %s = %s' % (show(tgt), show(rhs) if rhs else op) + ((' when ' + guard) if guard else '')
+            # identity for the known-findings file: which field receives a value from where (not how the statement is spelled)
+            if rhs is None:
+                src = op
+            elif const_of(rhs) is not None:
+                src = str(const_of(rhs))
+            else:
+                src = ','.join(sorted({y['n'] for y in walk(rhs) if isinstance(y, dict) and y.get('k') == 'MemberExpr'})) or show(rhs)
             obls.append(Obl('C18.R2', fn.name, construct, st['loc'], 'discharged' if ok else 'finding', why=why,
-                            detail={'field': f, 'setters': sorted(owned[f]), 'reached_from': via, 'rhs': show(rhs) if rhs else op}))
+                            detail={'field': f, 'setters': sorted(owned[f]), 'reached_from': via, 'rhs': show(rhs) if rhs else op},
+                            ident='store %s <- %s' % (f, src)))
         # calls of setter helpers from reset/load paths: argument must derive from the setting
         for b, j, st in fn.cfg.stmts():
             for c in calls_in(st['s']):
